@@ -40,7 +40,9 @@ def build(ctx, rule):
     m.mod = mod
     # parent: the function whose while-loops read a multiprocessing queue created in that same function
     m.parent = None
-    for f in mod.funcs.values():
+    from ..core import de_enumerate, tail_inlined
+
+    for f in [de_enumerate(tail_inlined(repo, f0)) for f0 in mod.funcs.values()]:
         chans = set()
         for n in walk_own(f.node):
             if isinstance(n, ast.Assign) and isinstance(n.value, ast.Call) and len(n.targets) == 1:
